@@ -296,6 +296,8 @@ int restore_hash_string (char **val, svalue_t * sv) {
               {
                 while ((c = *cp++) != '"')
                   {
+                    if (c == '\0')
+                      return ROB_STRING_ERROR;	/* unterminated */
                     if (c == '\\')
                       {
                         if (!(c = *newp++ = *cp++))
